@@ -314,11 +314,28 @@ def build_unit(unit, quiet=True):
             elif g in fmeta:
                 st.extend(fmeta[g]['calls'])
         repl[fn] = sorted(out)
-    info = {'unit': unit, 'dir': d, 'cfile': cfile, 'targets': targets, 'replace': repl,
+    # loops in the function itself plus every callee whose body is inlined
+    loops_closure = {}
+    for fn in targets:
+        seen = set()
+        st = [fn]
+        total = 0
+        while st:
+            g = st.pop()
+            if g in seen or g not in fmeta:
+                continue
+            seen.add(g)
+            if g != fn and g in repl[fn]:
+                continue
+            total += fmeta[g]['loops']
+            st.extend(fmeta[g]['calls'])
+        loops_closure[fn] = total
+    info = {'unit': unit, 'dir': d, 'cfile': cfile, 'targets': targets, 'replace': repl, 'loops_closure': loops_closure,
             'linemap': {str(k): v for k, v in linemap.items() if k != 'src'},
             'srcmap': {str(k): v for k, v in srcmap.items()},
             'entries': {fn: {'props': as_list(e.get('props')) if not isinstance(e.get('props'), str) else e['props'].split(),
-                             'pat': e['_pat'], 'bounded': e.get('bounded'), 'cbmc_flags': e.get('cbmc_flags', [])}
+                             'pat': e['_pat'], 'bounded': e.get('bounded'), 'cbmc_flags': e.get('cbmc_flags', []),
+                             'loop_free': bool(e.get('loop_free'))}
                         for fn, e in entries.items()},
             'meta': {'functions': meta['functions'], 'records': meta['records']},
             'tagmap': getattr(spec, 'TAGMAP', {}), 'lower_s': time.time() - t0,
@@ -347,6 +364,12 @@ def verify_fn(info, fn, solver=None):
     if os.path.exists(resf):
         return json.load(open(resf))
     t0 = time.time()
+    if info['entries'][fn].get('loop_free') and info.get('loops_closure', {}).get(fn, 0) > 0:
+        # structural obligation of wait-freedom: decided on the lowered CFG, no solver needed
+        return {'fn': fn, 'status': 'done', 'seconds': 0.0, 'solver_s': 0.0, 'cmd': 'structural check on the lowered control-flow graph',
+                'obligations': [{'name': fn + '.structure.loop_free', 'status': 'FAILURE', 'line': None, 'function': fn,
+                                 'desc': '[C14] this read path must be loop-free (wait-free), but the lowered function contains %d loop(s)' % info['loops_closure'][fn]},
+                                {'name': 'vf_reach', 'status': 'FAILURE', 'line': None, 'function': fn, 'desc': 'vf_reach: structural check'}]}
     a = os.path.join(d, fn + '.a.gb')
     b = os.path.join(d, fn + '.b.gb')
     ent = info['entries'][fn]
